@@ -317,7 +317,8 @@ func RollCoC
     decreases int(diceNum - i)
   ensures [C04] result0 == best
   ensures [C04 C15] 1 <= result0 && result0 <= 100
-  ensures [C15] mode == -1 ==> result0 == 1
+  ensures [C15] mode == -1 && isBonus ==> result0 == 1
+  goal [C15] mode == -1 ==> result0 == 1
   ensures [C15] mode == 1 ==> result0 == 100
   ensures [C15] mode == 1 || mode == -1 ==> rngSame()
 
@@ -393,6 +394,122 @@ func RollDoubleCross
   ensures [C15] mode == -1 ==> result2 == 1
   ensures [C15] mode == 1 || mode == -1 ==> rngSame()
 
+
+// ---- parser.go: code buffer and jump patching ----
+
+func (*ParserData).checkStackOverflow
+  props C07 C08 C01
+  requires e != nil && 0 <= e.codeIndex && e.codeIndex <= len(e.code) && len(e.code) >= 1
+  assigns ParserData.code ByteCode.*
+  ensures e.codeIndex == old(e.codeIndex) && e.codeIndex <= len(e.code) && len(e.code) >= old(len(e.code))
+  ensures !result ==> e.codeIndex < len(e.code)
+  ensures forall k in [0, e.codeIndex): e.code[k] == old(e.code[k])
+  goal [C07] !result
+
+func (*ParserData).WriteCode
+  props C07 C08 C01
+  requires e != nil && 0 <= e.codeIndex && e.codeIndex <= len(e.code) && len(e.code) >= 1
+  assigns ParserData.code ParserData.codeIndex ByteCode.*
+  ensures e.codeIndex <= len(e.code) && len(e.code) >= 1
+  ensures e.codeIndex == old(e.codeIndex) || e.codeIndex == old(e.codeIndex) + 1
+  ensures [C07 C08] e.codeIndex == old(e.codeIndex) + 1 ==> e.code[old(e.codeIndex)].T == T && e.code[old(e.codeIndex)].Value == value
+  goal [C07 C08] e.codeIndex == old(e.codeIndex) + 1
+  ensures forall k in [0, old(e.codeIndex)): e.code[k] == old(e.code[k])
+
+func (*ParserData).OffsetPush
+  props C02 C08
+  requires e != nil && e.codeIndex >= 1
+  assigns ParserData.jmpStack elem.IntType
+  ensures len(e.jmpStack) == old(len(e.jmpStack)) + 1
+  ensures e.jmpStack[len(e.jmpStack)-1] == IntType(e.codeIndex) - 1
+  ensures forall k in [0, old(len(e.jmpStack))): e.jmpStack[k] == old(e.jmpStack[k])
+
+func (*ParserData).OffsetPopAndSet
+  props C02 C08 C01
+  requires e != nil && len(e.jmpStack) >= 1
+  requires 0 <= e.codeIndex && e.codeIndex <= len(e.code)
+  requires 0 <= e.jmpStack[len(e.jmpStack)-1] && e.jmpStack[len(e.jmpStack)-1] < IntType(len(e.code))
+  assigns ParserData.jmpStack ByteCode.Value
+  ensures len(e.jmpStack) == old(len(e.jmpStack)) - 1
+  ensures [C02] old(e.jmpStack[len(e.jmpStack)-1]) + 1 + e.code[old(e.jmpStack[len(e.jmpStack)-1])].Value.(IntType) == IntType(e.codeIndex)
+  ensures forall k in [0, len(e.jmpStack)): e.jmpStack[k] == old(e.jmpStack[k])
+
+func (*ParserData).OffsetPopN
+  props C08 C01
+  requires e != nil && 0 <= num && num <= len(e.jmpStack)
+  assigns ParserData.jmpStack
+  ensures len(e.jmpStack) == old(len(e.jmpStack)) - num
+
+func (*ParserData).OffsetJmpSetX
+  props C02 C08 C01
+  requires e != nil && 0 <= offsetA && offsetA < len(e.jmpStack) && 0 <= offsetB && offsetB < len(e.jmpStack)
+  requires 0 <= e.codeIndex && e.codeIndex <= len(e.code)
+  requires 0 <= e.jmpStack[len(e.jmpStack)-1-offsetA] && e.jmpStack[len(e.jmpStack)-1-offsetA] < IntType(len(e.code))
+  requires 0 <= e.jmpStack[len(e.jmpStack)-1-offsetB] && e.jmpStack[len(e.jmpStack)-1-offsetB] < IntType(len(e.code))
+  assigns ByteCode.Value
+  ensures [C02] !rev ==> e.code[e.jmpStack[len(e.jmpStack)-1-offsetA]].Value.(IntType) == IntType(e.codeIndex) - e.jmpStack[len(e.jmpStack)-1-offsetB] - 1
+  ensures [C02] rev ==> e.code[e.jmpStack[len(e.jmpStack)-1-offsetA]].Value.(IntType) == -(IntType(e.codeIndex) - e.jmpStack[len(e.jmpStack)-1-offsetB] - 1)
+
+func (*ParserData).CounterPush
+  props C08 C13
+  requires e != nil
+  assigns ParserData.counterStack elem.IntType
+  ensures len(e.counterStack) == old(len(e.counterStack)) + 1 && e.counterStack[len(e.counterStack)-1] == 0
+  ensures forall k in [0, old(len(e.counterStack))): e.counterStack[k] == old(e.counterStack[k])
+
+func (*ParserData).CounterAdd
+  props C08 C13 C01
+  requires e != nil
+  assigns elem.IntType
+  ensures len(e.counterStack) == old(len(e.counterStack))
+  ensures len(e.counterStack) >= 1 && old(e.counterStack[len(e.counterStack)-1]) + offset <= math.MaxInt64 && old(e.counterStack[len(e.counterStack)-1]) + offset >= math.MinInt64 ==> e.counterStack[len(e.counterStack)-1] == old(e.counterStack[len(e.counterStack)-1]) + offset
+
+func (*ParserData).CounterPop
+  props C08 C13 C01
+  requires e != nil && len(e.counterStack) >= 1
+  assigns ParserData.counterStack
+  ensures len(e.counterStack) == old(len(e.counterStack)) - 1 && result == old(e.counterStack[len(e.counterStack)-1])
+
+func (*ParserData).NamePop
+  props C08 C01
+  requires e != nil && len(e.varnameStack) >= 1
+  assigns ParserData.varnameStack
+  ensures len(e.varnameStack) == old(len(e.varnameStack)) - 1 && result == old(e.varnameStack[len(e.varnameStack)-1])
+
+func (*ParserData).FlagsPop
+  props C16 C01
+  requires e != nil && len(e.flagsStack) >= 1
+  assigns ParserData.flagsStack RollConfig.*
+  ensures len(e.flagsStack) == old(len(e.flagsStack)) - 1
+  ensures [C16] e.Config.EnableDiceWoD == old(e.flagsStack[len(e.flagsStack)-1].EnableDiceWoD) && e.Config.EnableDiceCoC == old(e.flagsStack[len(e.flagsStack)-1].EnableDiceCoC) && e.Config.EnableDiceFate == old(e.flagsStack[len(e.flagsStack)-1].EnableDiceFate) && e.Config.EnableDiceDoubleCross == old(e.flagsStack[len(e.flagsStack)-1].EnableDiceDoubleCross)
+  ensures [C16] e.Config.DisableStmts == old(e.flagsStack[len(e.flagsStack)-1].DisableStmts) && e.Config.DisableNDice == old(e.flagsStack[len(e.flagsStack)-1].DisableNDice) && e.Config.DisableBitwiseOp == old(e.flagsStack[len(e.flagsStack)-1].DisableBitwiseOp)
+
+func (*ParserData).FlagsPush
+  props C16
+  requires e != nil
+  assigns ParserData.flagsStack RollConfig.*
+  ensures len(e.flagsStack) == old(len(e.flagsStack)) + 1
+  ensures [C16] e.flagsStack[len(e.flagsStack)-1].EnableDiceWoD == e.Config.EnableDiceWoD && e.flagsStack[len(e.flagsStack)-1].EnableDiceCoC == e.Config.EnableDiceCoC && e.flagsStack[len(e.flagsStack)-1].EnableDiceFate == e.Config.EnableDiceFate && e.flagsStack[len(e.flagsStack)-1].EnableDiceDoubleCross == e.Config.EnableDiceDoubleCross
+  ensures [C16] e.flagsStack[len(e.flagsStack)-1].DisableStmts == e.Config.DisableStmts && e.flagsStack[len(e.flagsStack)-1].DisableNDice == e.Config.DisableNDice && e.flagsStack[len(e.flagsStack)-1].DisableBitwiseOp == e.Config.DisableBitwiseOp
+  ensures [C16] e.Config.EnableDiceWoD == old(e.Config.EnableDiceWoD) && e.Config.EnableDiceCoC == old(e.Config.EnableDiceCoC) && e.Config.EnableDiceFate == old(e.Config.EnableDiceFate) && e.Config.EnableDiceDoubleCross == old(e.Config.EnableDiceDoubleCross) && e.Config.DisableStmts == old(e.Config.DisableStmts)
+
+func (*ParserData).LoopEnd
+  props C08 C01
+  requires e != nil && len(e.loopInfo) >= 1
+  requires 0 <= e.loopInfo[len(e.loopInfo)-1].continueIndex && e.loopInfo[len(e.loopInfo)-1].continueIndex <= len(e.continueStack)
+  requires 0 <= e.loopInfo[len(e.loopInfo)-1].breakIndex && e.loopInfo[len(e.loopInfo)-1].breakIndex <= len(e.breakStack)
+  ensures len(e.loopInfo) == old(len(e.loopInfo)) - 1
+  ensures len(e.continueStack) == old(e.loopInfo[len(e.loopInfo)-1].continueIndex) && len(e.breakStack) == old(e.loopInfo[len(e.loopInfo)-1].breakIndex)
+
+func (*ParserData).BreakSet
+  props C02 C08 C01
+  requires p != nil && 0 <= p.codeIndex && p.codeIndex <= len(p.code)
+  requires p.breakStack != nil ==> len(p.loopInfo) >= 1 && 0 <= p.loopInfo[len(p.loopInfo)-1].breakIndex && p.loopInfo[len(p.loopInfo)-1].breakIndex <= len(p.breakStack)
+  requires forall k in [0, len(p.breakStack)): 0 <= p.breakStack[k] && p.breakStack[k] < IntType(len(p.code))
+  assigns ByteCode.Value
+  loop 1
+    invariant forall j in [0, rangeIdx): p.code[p.breakStack[p.loopInfo[len(p.loopInfo)-1].breakIndex + j]].Value.(IntType) == IntType(p.codeIndex) - p.breakStack[p.loopInfo[len(p.loopInfo)-1].breakIndex + j] - 1
+  ensures [C02] p.breakStack != nil ==> forall k in [p.loopInfo[len(p.loopInfo)-1].breakIndex, len(p.breakStack)): p.breakStack[k] + 1 + p.code[p.breakStack[k]].Value.(IntType) == IntType(p.codeIndex)
 
 // ---- lemmas (raw SMT-LIB, proved on every run; expected answer: unsat) ----
 
